@@ -213,6 +213,24 @@ class EGen:
                 # the failure happens in both iterations
                 actions.append(act)
                 actions.append(act)
+            elif self.chance(0.3):
+                # the failing statement is the first one of a block
+                body.append(brk)
+                tail = A.Print([A.Str('in block'), ';', N(q)])
+                blk = self.pick(['do', 'for', 'if', 'while'])
+                if blk == 'do':
+                    body.append(A.Do('loop_until', N(1), [stmt, tail]))
+                elif blk == 'for':
+                    body.append(A.For(V('j%d%%' % q), N(1), N(1), None,
+                                      [stmt, tail]))
+                elif blk == 'if':
+                    body.append(A.If([(N(1), [stmt, tail])], None))
+                else:
+                    wv = 'w%d%%' % q
+                    body.append(A.While(A.Bin('<', V(wv), N(1), '%'),
+                                        [stmt, tail, A.Assign(V(wv), N(1))]))
+                self.note('first_in_block_' + blk)
+                actions.append(act)
             else:
                 body.append(brk)
                 body.append(stmt)
